@@ -82,6 +82,22 @@ SpecText(s) == s.fill \o s.align \o s.sign \o (IF s.alt THEN "#" ELSE "") \o (IF
                \o (IF s.width = 0 THEN "" ELSE NatStr(s.width)) \o s.group \o s.fmode
 FormatValues == {0, 5, -5, 255, -255, 1234567, -1234567, 1000, 999}
 
+\* ---- string format specifiers ---------------------------------------------------------------
+\* format(x: str, f): only fill, alignment and width apply (std/str.md: "No modes are accepted"); the
+\* width counts characters (code points), whatever their UTF-8 width.  Strings are sequences of the
+\* abstract symbols of XrStr, rendered by the harness.
+StrSpecs == [fill : {"", "*"}, align : {"", "<", ">", "^"}, width : {0, 2, 3, 4, 7, 10}]
+StrWellFormed(s) == s.fill # "" => s.align # ""
+StrFormatValues == {<<>>, <<"a">>, <<"a", "s">>, <<"e1", "a">>, <<"zh", "zh">>, <<"em">>, <<"a", "cd">>,
+                    <<"ss", "a", "s">>, <<"a", "em", "zh", "e1">>}
+FormatStr(xs, s) ==
+    LET pad == IF s.width > Len(xs) THEN s.width - Len(xs) ELSE 0
+        al == IF s.align = "" THEN ">" ELSE s.align
+    IN CASE al = "<" -> [ok |-> TRUE, pre |-> 0, post |-> pad]
+         [] al = ">" -> [ok |-> TRUE, pre |-> pad, post |-> 0]
+         [] OTHER -> [ok |-> pad % 2 = 0, pre |-> pad \div 2, post |-> pad \div 2]
+StrSpecText(s) == s.fill \o s.align \o (IF s.width = 0 THEN "" ELSE NatStr(s.width))
+
 \* ---- sorting ------------------------------------------------------------------------------
 \* elements are (key, payload); the comparator looks at the key only: ties keep their order
 RECURSIVE InsertStable(_, _), StableSort(_)
@@ -96,6 +112,8 @@ Init ==
        /\ fspec = 0 /\ fx = 0 /\ sortin = <<>>
     \/ /\ mode = "format" /\ fspec \in {s \in Specs : WellFormed(s)} /\ fx \in FormatValues
        /\ ty = "" /\ a = 0 /\ b = 0 /\ sortin = <<>>
+    \/ /\ mode = "sformat" /\ fspec \in {s \in StrSpecs : StrWellFormed(s)} /\ fx \in StrFormatValues
+       /\ ty = "" /\ a = 0 /\ b = 0 /\ sortin = <<>>
 Next == UNCHANGED ovars
 
 Emit ==
@@ -103,6 +121,10 @@ Emit ==
       THEN PrintT(<<"CASE", ToJson([mode |-> "pair", ty |-> ty, a |-> Proj(a), b |-> Proj(b), eq |-> VEq(a, b),
                                     cmp |-> IF ty \in Ordered THEN VCmp(a, b) ELSE 99,
                                     text |-> IF ty \in ExactText THEN VStr(a) ELSE "?"])>>)
+    ELSE IF mode = "sformat"
+      THEN LET f == FormatStr(fx, fspec)
+           IN f.ok => PrintT(<<"CASE", ToJson([mode |-> "sformat", x |-> fx, spec |-> StrSpecText(fspec), pre |-> f.pre, post |-> f.post,
+                                               fill |-> IF fspec.fill = "" THEN " " ELSE fspec.fill])>>)
       ELSE LET f == FormatInt(fx, fspec)
            IN f.ok => PrintT(<<"CASE", ToJson([mode |-> "format", x |-> fx, spec |-> SpecText(fspec), v |-> f.v])>>)
 
@@ -115,5 +137,7 @@ CmpTransitive ==
         \A c \in TypeVals[ty] : (VCmp(a, b) <= 0 /\ VCmp(b, c) <= 0) => VCmp(a, c) <= 0
 PrefixIsSmaller ==
     (mode = "pair" /\ ty \in {"seq_int", "seq_str"} /\ Len(a.v) < Len(b.v) /\ SubSeq(b.v, 1, Len(a.v)) = a.v) => VCmp(a, b) = -1
+StrWidthReached == (mode = "sformat" /\ FormatStr(fx, fspec).ok) =>
+    LET f == FormatStr(fx, fspec) IN f.pre + Len(fx) + f.post >= fspec.width /\ (fspec.width <= Len(fx) => f.pre + f.post = 0)
 EmptySpecIsToStr == (mode = "format" /\ SpecText(fspec) = "") => FormatInt(fx, fspec).v = IntStr(fx)
 =============================================================================
